@@ -34,6 +34,11 @@ ZOO = {
     "nested-list": ('[1, [2, {"k": "v"}], "x"]', "$v[1][1]", None),
     "nested-dict": ('{"k": [1, 2], "m": {"n": None}}', '$v["k"][1]', None),
     "dict-int-keys": ('{1: "one", 2: "two"}', "$v[1]", None),
+    "dict-mixed-keys-str-first": ('{"k": "v", 1: "one", 2: "two"}', "$v[1]", None),
+    "dict-mixed-keys-int-first": ('{1: "one", "k": "v"}', "$v[1]", None),
+    "dict-float-bool-none-keys": ('{1.5: "f", True: "t", None: "n"}', "$v[1.5]", None),
+    "nested-dict-int-keys": ('{"outer": {1: "one"}, "l": [{2: "two"}]}', '$v["l"][0][2]', None),
+    "set-of-mixed": ('{1, "a", 2.5}', "len($v)", None),
     "regex": ('regex("^a.*")', '"x"', "$v"),
     "comparison": ("less_than(3)", '"x"', "$v"),
     "float-bool-none": ("[1.5, True, None]", "$v[0]", None),
